@@ -323,6 +323,8 @@ DEFOPT_VALUES: T.Dict[str, T.List[str]] = {
 # literal default_options entries whose key ends with / contains another option's key, or whose value contains `key=`
 CONFUSABLE_DEFOPTS = ['b_ndebug=if-release', 'build.c_args=-DB', 'c_args=-Ddebug=1 -Dstrip=x', 'c_link_args=-s', 'c_std=c11',
                       'cpp_std=c++14', 'sub:werror=true', 'build.cpp_std=c++11', 'sub:debug=false', 'b_lto=false']
+# entries with a backslash that is still an escape sequence after one decoding (source text '...\\t...')
+BACKSLASH_DEFOPTS = ['c_args=-DSEP="\\t" -DROOT="C:\\\\tools"', 'cpp_args=-DNL="\\n"', 'c_link_args=-Wl,\\x41', 'objc_args=a\\\\nb']
 CONFUSABLE_TAILS = ['debug', 'c_args', 'std', 'werror', 'args', 'strip', 'link_args', 'cpp_std', 'lto']
 COMMENTS = ['# plain comment', "# it's (a) comment, with 'quotes'", '# ünïcödé 日本 comment', '#no space', '#  x = [1, 2',
             "# executable('ghost', 'ghost.c')"]
@@ -335,6 +337,7 @@ class ProjectGen:
         self.hazard = linebreak_hazard
         self.n = 0
         self.names: T.Set[str] = set()
+        self.config: T.Dict[str, bool] = {}
 
     def fresh(self, prefix: str) -> str:
         self.n += 1
@@ -386,7 +389,13 @@ class ProjectGen:
                 elif c < 0.65:
                     add(r.choice(DEP_STR_KW), eg.pick('str', 1))
                 elif c < 0.9:
-                    add(r.choice(DEP_LIST_KW), self.str_array(eg))
+                    if r.random() < 0.35:
+                        # a list-typed keyword given as ONE bare string
+                        self.features.append('strlist-kwarg-bare-string')
+                        add(r.choice(DEP_LIST_KW), self.lit(r.choice(['>=1.0', 'core\\tx', 'a\\nb', 'C:\\\\tmp', 'mod\\x41'])) if r.random() < 0.5
+                            else eg.str_literal())
+                    else:
+                        add(r.choice(DEP_LIST_KW), self.str_array(eg))
                 else:
                     add('default_options', self.dict_literal(eg))
             return out
@@ -495,7 +504,8 @@ class ProjectGen:
         if r.random() < 0.7:
             pkw.append(('version', eg0.pick('str', 1) if r.random() < 0.5 else "'1.2.3'"))
         if r.random() < 0.4:
-            pkw.append(('license', r.choice(["'MIT'", "['MIT', 'GPL-2.0']", f"[{eg0.str_literal()}]"])))
+            pkw.append(('license', r.choice(["'MIT'", "['MIT', 'GPL-2.0']", f"[{eg0.str_literal()}]", eg0.str_literal(),
+                                             self.lit('Custom\\tLicense')])))
         if r.random() < 0.3:
             pkw.append(('meson_version', r.choice(["'>=0.50.0'", "'>=' + '0.5' + 0.to_string() + '.0'", "(true ? '>=0.50.0' : '>=0.60.0')"])))
         defopts: T.List[str] = []
@@ -511,6 +521,11 @@ class ProjectGen:
                         items.insert(r.randint(0, len(items)), self.lit(e))
                     self.features.append('defopt-confusable-keys')
                 if r.random() < 0.3:
+                    items.insert(r.randint(0, len(items)), self.lit(r.choice(BACKSLASH_DEFOPTS)))
+                    if r.random() < 0.5:
+                        items = items[-2:]            # short list: one delete leaves a single element
+                    self.features.append('defopt-backslash-entry')
+                if r.random() < 0.3:
                     items.append(r.choice(["'b_' + 'ndebug=' + (not (true and false)).to_string()",
                                            "'install_umask=0' + (0o20 + 6).to_string()",
                                            "'libdir=' + 'lib' / 'x'"]))
@@ -520,8 +535,9 @@ class ProjectGen:
                 else:
                     pkw.append(('default_options', '[' + ', '.join(items) + ']'))
             elif form < 0.85:
-                pkw.append(('default_options', self.lit(f'{ents[0][0]}={ents[0][1]}')))
-                defopts = [ents[0][0]]
+                single = r.choice(BACKSLASH_DEFOPTS) if r.random() < 0.4 else f'{ents[0][0]}={ents[0][1]}'
+                pkw.append(('default_options', self.lit(single)))
+                defopts = [single.split('=')[0]]
                 self.features.append('defopt-single-string')
             else:
                 pkw.append(('default_options', '{' + ', '.join(f'{self.lit(k)} : {self.lit(v)}' for k, v in ents) + '}'))
@@ -572,7 +588,7 @@ class ProjectGen:
                 srcs.append('alt/' + srcs[0])           # same base name in another directory
                 pool.add('alt/' + srcs[0])
                 self.features.append('src-same-basename')
-            shape = r.randrange(14)
+            shape = r.randrange(16)
             if shared_var is not None and not in_sub and r.random() < 0.3:
                 shape = 6
             oneline = False
@@ -634,6 +650,36 @@ class ProjectGen:
                 self.features.append('src-get-variable')
                 vdest.append(f'{sv} = [' + ', '.join(L(s) for s in srcs) + ']')
                 pos = [f"get_variable('{sv}')"]
+            elif shape in (14, 15):
+                # the variable is assigned again inside an if/elif/else clause: what the target gets depends on the
+                # configuration (get_option) -- the rewriter has to be right in every configuration
+                self.features.append('src-var-reassigned-in-branch')
+                opt = f'opt{i}'
+                self.config[opt] = r.choice([True, False])
+                cond = r.choice([f"get_option('{opt}')", f"not get_option('{opt}')", f"get_option('{opt}') and bb == bb"])
+                alt = [self.srcname(pool) for _ in range(r.choice([1, 2]))]
+                alt2 = [self.srcname(pool)]
+                arr = lambda xs: '[' + ', '.join(L(x) for x in xs) + ']'
+                noop = r.choice(["message('keeping the generic list')", f"v{i}x = 1", "warning('generic')"])
+                dest.append(f'{sv} = {arr(srcs)}')
+                if r.random() < 0.3:
+                    self.features.append('src-var-used-before-and-after-clause')
+                    dest.append(f"executable('u{i}', {sv})")
+                form = r.randrange(6)
+                self.features.append(f'branch-form-{form}')
+                if form == 0:
+                    dest += [f'if {cond}', f'  {sv} = {arr(alt)}', 'else', f'  {noop}', 'endif']
+                elif form == 1:
+                    dest += [f'if {cond}', f'  {noop}', 'else', f'  {sv} = {arr(alt)}', 'endif']
+                elif form == 2:
+                    dest += [f'if {cond}', f'  {sv} = {arr(alt)}', 'elif bb', f'  {noop}', 'else', f'  {noop}', 'endif']
+                elif form == 3:
+                    dest += [f'if {cond}', f'  {sv} = {arr(alt)}', 'else', f'  {sv} = {arr(alt2)}', 'endif']
+                elif form == 4:
+                    dest += [f'if {cond}', f'  {sv} += {arr(alt)}', 'else', f'  {noop}', 'endif']
+                else:
+                    dest += [f'if {cond}', f'  {sv} = {arr(alt)}', 'endif']
+                pos = [sv] if r.random() < 0.6 else [L(self.srcname(pool)), sv]
             elif shape in (12, 13) and len(srcs) >= 2:
                 # two (or three) list expressions next to each other on ONE line
                 self.features.append('src-lists-on-one-line')
@@ -706,7 +752,25 @@ class ProjectGen:
                 st = st.rstrip('\n')
                 self.features.append('no-trailing-newline')
             files['sub/meson.build'] = st
-        return {'files': files, 'features': sorted(set(self.features)), 'defopts': defopts, 'pool': sorted(pool)}
+        return {'files': files, 'features': sorted(set(self.features)), 'defopts': defopts, 'pool': sorted(pool),
+                'config': dict(self.config)}
+
+
+def configurations(config: T.Mapping[str, bool]) -> T.List[T.Dict[str, bool]]:
+    """The primary configuration first, then the others: every combination for up to 3 options, else the primary
+    one with each single option flipped and the all-flipped one."""
+    keys = sorted(config)
+    out = [dict(config)]
+    if not keys:
+        return out
+    if len(keys) <= 3:
+        for mask in range(1, 1 << len(keys)):
+            out.append({k: (not config[k]) if mask & (1 << i) else config[k] for i, k in enumerate(keys)})
+        return out
+    for k in keys:
+        out.append({**config, k: not config[k]})
+    out.append({k: not v for k, v in config.items()})
+    return out
 
 
 def gen_project(rng: random.Random, linebreak_hazard: bool = False) -> T.Dict[str, T.Any]:
@@ -717,8 +781,7 @@ def gen_project(rng: random.Random, linebreak_hazard: bool = False) -> T.Dict[st
             p = g.generate()
         except R.RefError:
             continue
-        m = M.Model(p['files'])
-        if m.ok and m.targets():
+        if all(M.Model(p['files'], c).ok for c in configurations(p['config'])) and M.Model(p['files'], p['config']).targets():
             return p
     raise RuntimeError('generator cannot produce an evaluable project')
 
